@@ -87,6 +87,10 @@ func (m *SyncRun) End(c *vnet.Cluster) {
 		m.inc("runs-outside-premise")
 		return
 	}
+	if c.Steps >= c.Cfg.MaxSteps {
+		m.inc("runs-cut-by-the-step-cap") // the harness stopped the run: says nothing about the library
+		return
+	}
 	base := c.Cfg.BaseHeight
 	for h := base + 1; h <= c.TargetHeight(); h++ {
 		var ref *vnet.AcceptRec
@@ -274,6 +278,10 @@ func (m *DynTime) Event(c *vnet.Cluster, e *vnet.Event) {
 
 func (m *DynTime) End(c *vnet.Cluster) {
 	if c.Aborted {
+		return
+	}
+	if c.Steps >= c.Cfg.MaxSteps {
+		m.inc("runs-cut-by-the-step-cap") // the harness stopped the run: says nothing about the library
 		return
 	}
 	for _, n := range c.Nodes {
